@@ -1882,8 +1882,6 @@ CMR_ERROR decomposeTernarySeriesParallel(
           if (violatorSubmatrix)
           {
             CMRdbgMsg(4, "Extracted a violator submatrix.\n");
-            CMRsubmatPrint(cmr, violatorSubmatrix, matrix->numRows, matrix->numColumns, stdout);
-            fflush(stdout);
           }
 
           if (violatorSubmatrix)
